@@ -41,6 +41,10 @@ structure Cfg where
   /-- the only update of `reminder_keys[name][key]` in `run` is `.add(remkey)` next to
       `reminders[name][remkey] += old_value` (used by the concrete-dict model, Model/C10Dict) -/
   rkAccumulate : Bool := true
+  /-- when `nowrap` is true the front ends call the platform function AND `wrap_numbers` inside one
+      `with <module-level lock>:` (fixes/C10-sample-under-lock): the raw sample is taken under a lock
+      (used by the lock model, Model/C10Conc) -/
+  sampleUnderLock : Bool := false
 
 def wrapped (cfg : Cfg) (new old : Nat) : Bool :=
   if cfg.strictLess then decide (new < old) else decide (new ≤ old)
@@ -82,6 +86,7 @@ inductive Op
   | call (name : Name) (nowrap : Bool) (raw : Raw)
   | clear (name : Name)          -- psutil.<fn>.cache_clear()
   | clearAll                     -- _common.wrap_numbers.cache_clear() (internal)
+  deriving DecidableEq
 
 inductive Out
   | none                         -- `{}` (per-device form; at the level of `step`: nothing listed)
